@@ -239,6 +239,28 @@ fn deep_splits(db: &LayoutDb, seed: u64, nfiles: usize, all_offsets: bool, sink:
 			frags.push(Frag::SplitAt(k));
 			k += step;
 		}
+		// the replay is followed by other data in its stream (another replay, padding): the hash is that of the
+		// replay's bytes, whatever the stream delivers per read
+		{
+			let mut data = built.bytes.clone();
+			data.extend_from_slice(&built.bytes[..built.bytes.len().min(3000)]);
+			data.extend(std::iter::repeat(0x7Du8).take(6000));
+			for frag in [Frag::Whole, Frag::Fixed(1), Frag::Fixed(64), Frag::Fixed(4096), Frag::Random(seed ^ i as u64)] {
+				for skip in [false, true] {
+					let cls = format!("{},skip={},hash=true,data_follows", shape_class(&beh), skip);
+					sink.count(fnv(&built.bytes) ^ fnv(format!("follows{:?}{}", frag, skip).as_bytes()), true);
+					let (res, _, _) = read_frag(&data, frag.clone(), skip, true, None);
+					match res {
+						Outcome::Ok(g) => {
+							if g.hash.as_deref() != Some(want.as_str()) {
+								sink.report(&viol("hash_value", &cls, "mismatch", format!("hash {:?}, expected {} under {:?} (other data follows the replay in the stream)", g.hash, want, frag)), &|| json!({"frag": format!("{:?}", frag), "skip": skip, "ver": ver, "bytes_hex": crate::util::hex(&built.bytes)}));
+							}
+						}
+						o => sink.report(&viol("sched_read", &cls, o.kind(), format!("{:?}: {}", frag, o.detail())), &|| json!({"frag": format!("{:?}", frag), "skip": skip, "ver": ver, "bytes_hex": crate::util::hex(&built.bytes)})),
+					}
+				}
+			}
+		}
 		for frag in frags {
 			for skip in [false, true] {
 				let cls = format!("{},skip={},hash=true", shape_class(&beh), skip);
